@@ -272,8 +272,15 @@ Proof.
   repeat (destruct H as [->|H]; [reflexivity|]). subst; reflexivity.
 Qed.
 
-Theorem altloc_roundtrip : forall a, a <> 32 -> read_altloc (write_altloc a) = a.
-Proof. intros a H. unfold read_altloc, write_altloc. destruct (a =? 0) eqn:E; [apply Z.eqb_eq in E; subst; reflexivity|]. replace (a =? 32) with false by lia. reflexivity. Qed.
+Theorem altloc_roundtrip : forall a, a <> 32 -> ~ (97 <= a <= 122) -> read_altloc (write_altloc a) = a.
+Proof.
+  intros a H L. unfold read_altloc, write_altloc. destruct (a =? 0) eqn:E; [apply Z.eqb_eq in E; subst; reflexivity|].
+  replace ((97 <=? a) && (a <=? 122)) with false by lia. replace (a =? 32) with false by lia. reflexivity.
+Qed.
+
+(* a lower-case altloc is written as its capital: it does not come back *)
+Lemma altloc_lowercase_refuted : read_altloc (write_altloc 97) = 65.
+Proof. reflexivity. Qed.
 
 (* boundary examples *)
 Example serial_99999 : encode_serial 99999 = [57;57;57;57;57] /\ encode_serial 100000 = [65;48;48;48;48] /\
